@@ -809,6 +809,14 @@ func (fc *FnCtx) applyCallFrame(st *State, c *ssa.CallCommon, base *Frame, parts
 		}
 	}
 	merged = fc.g.closeDeps(merged)
+	decoded := false
+	if c.IsInvoke() && (c.Method.Name() == "Get" || c.Method.Name() == "List") {
+		rt := c.Value.Type().String()
+		if strings.HasSuffix(rt, "client.Client") || strings.HasSuffix(rt, "client.Reader") {
+			decoded = true
+			fc.useTrusted("client Get/List fill the out object with freshly decoded or deep-copied data: every reference stored by the call points to memory allocated during the call (no sharing with objects the caller already holds)")
+		}
+	}
 	for _, r := range rs {
 		var as []string
 		for _, a := range r.arrs {
@@ -816,7 +824,7 @@ func (fc *FnCtx) applyCallFrame(st *State, c *ssa.CallCommon, base *Frame, parts
 				as = append(as, a)
 			}
 		}
-		st.havocArrsYoung(as, r.T)
+		st.havocArrsYoung(as, r.T, decoded)
 	}
 	fc.applyFrame(st, merged)
 }
